@@ -71,6 +71,14 @@ def mutate(text, rng, kind):
             ins = rng.choice(COMMENTS + SPACES + [" " + c + "\n" for c in LINE_COMMENTS])
         text = text[:p] + ins + text[p:]
         used.append((bk, ins))
+    # line endings as written by other platforms: the same definitions with \r\n (or bare \r) line ends
+    x = rng.random()
+    if x < 0.25:
+        text = text.replace("\n", "\r\n")
+        used.append(("line-ends", "crlf"))
+    elif x < 0.3:
+        text = text.replace("\n", "\r")
+        used.append(("line-ends", "cr"))
     return text, used
 
 
@@ -227,32 +235,34 @@ def aliases(ctx, rng):
             ctx.violation("alias", f"builtin-synonym-unresolvable:{type(e).__name__}", {"alias": a})
     ctx.cell("builtin-aliases")
     for i in range(30):
+        # every other chain uses names that begin like a keyword / type / literal prefix
+        px = gen.TRICKY_PREFIXES[(i // 2) % len(gen.TRICKY_PREFIXES)] if i % 2 else ""
         base = rng.choice(["uint16", "char", "int24", "WORD", "unsigned int"])
         depth = rng.randint(1, 5)
         lines, prev = [], base
         for k in range(depth):
-            lines.append(f"typedef {prev} A{i}_{k};")
-            prev = f"A{i}_{k}"
-        text = "\n".join(lines) + f"\ntypedef struct _S{i} {{ {prev} x; A{i}_0 y[2]; }} S{i}, S{i}b, S{i}c;\n"
+            lines.append(f"typedef {prev} {px}A{i}_{k};")
+            prev = f"{px}A{i}_{k}"
+        text = "\n".join(lines) + f"\ntypedef struct {px}_S{i} {{ {prev} x; {px}A{i}_0 y[2]; }} {px}S{i}, {px}S{i}b, {px}S{i}c;\n"
         ctx.evaluation(("chain", text))
         ctx.cell("alias-chain")
         try:
             cs = lib.load(text)
             tgt = cs.resolve(base)
             for k in range(depth):
-                if cs.resolve(f"A{i}_{k}") is not tgt:
-                    ctx.violation("alias", "typedef-chain-resolves-to-another-type", {"text": text, "alias": f"A{i}_{k}"})
-            s = cs.resolve(f"S{i}")
-            for n in (f"_S{i}", f"S{i}b", f"S{i}c"):
+                if cs.resolve(f"{px}A{i}_{k}") is not tgt:
+                    ctx.violation("alias", "typedef-chain-resolves-to-another-type", {"text": text, "alias": f"{px}A{i}_{k}"})
+            s = cs.resolve(f"{px}S{i}")
+            for n in (f"{px}_S{i}", f"{px}S{i}b", f"{px}S{i}c"):
                 if cs.resolve(n) is not s:
                     ctx.violation("alias", "struct-typedef-names-are-different-types", {"text": text, "alias": n})
             if s.fields["x"].type is not tgt:
                 ctx.violation("alias", "field-of-alias-type-bound-to-another-type", {"text": text})
             # same target again: accepted; different target: rejected
-            cs.load(f"typedef {base} A{i}_0;")
-            cs.add_type(f"A{i}_0", tgt)
+            cs.load(f"typedef {base} {px}A{i}_0;")
+            cs.add_type(f"{px}A{i}_0", tgt)
             try:
-                cs.load(f"typedef uint64 A{i}_0;")
+                cs.load(f"typedef uint64 {px}A{i}_0;")
                 ctx.violation("alias", "redeclaration-with-different-target-accepted", {"text": text})
             except ValueError:
                 ctx.event("conflicting_redeclaration_rejected")
